@@ -1144,7 +1144,7 @@ def phi_alternatives(fn, term, depth=0):
             elif rv[0] == 'cast':
                 sub = sym(fn, rv[2])
             else:
-                sub = ('?', rv[0])
+                sub = sym_def(fn, kind, site, (), depth + 1)
         else:
             args = tuple(sym(fn, a) for a in site.args)
             sub = ('call', site.callee_full or site.callee or 'ptr', args)
